@@ -70,7 +70,7 @@ func NewCreateContentFromAuthEvents(authEvents AuthEventProvider, userIDForSende
 		err = errorf("missing create event")
 		return
 	}
-	if err = json.Unmarshal(createEvent.Content(), &c); err != nil {
+	if err = unmarshalExact(createEvent.Content(), &c); err != nil {
 		err = errorf("unparseable create event content: %s", err.Error())
 		return
 	}
@@ -209,9 +209,9 @@ func NewMemberContentFromAuthEvents(authEvents AuthEventProvider, senderID spec.
 // NewMemberContentFromEvent parse the member content from an event.
 // Returns an error if the content couldn't be parsed.
 func NewMemberContentFromEvent(event PDU) (c MemberContent, err error) {
-	if err = json.Unmarshal(event.Content(), &c); err != nil {
+	if err = unmarshalExact(event.Content(), &c); err != nil {
 		var partial membershipContent
-		if err = json.Unmarshal(event.Content(), &partial); err != nil {
+		if err = unmarshalExact(event.Content(), &partial); err != nil {
 			err = errorf("unparseable member event content: %s", err.Error())
 			return
 		}
@@ -252,7 +252,7 @@ func NewThirdPartyInviteContentFromAuthEvents(authEvents AuthEventProvider, toke
 		err = errorf("Couldn't find third party invite event")
 		return
 	}
-	if err = json.Unmarshal(thirdPartyInviteEvent.Content(), &t); err != nil {
+	if err = unmarshalExact(thirdPartyInviteEvent.Content(), &t); err != nil {
 		err = errorf("unparseable third party invite event content: %s", err.Error())
 	}
 	return
@@ -347,7 +347,7 @@ func NewJoinRuleContentFromAuthEvents(authEvents AuthEventProvider) (c JoinRuleC
 	if joinRulesEvent == nil {
 		return
 	}
-	if err = json.Unmarshal(joinRulesEvent.Content(), &c); err != nil {
+	if err = unmarshalExact(joinRulesEvent.Content(), &c); err != nil {
 		err = errorf("unparseable join_rules event content: %s", err.Error())
 		return
 	}
@@ -474,7 +474,7 @@ func NewPowerLevelContentFromEvent(event PDU) (c PowerLevelContent, err error) {
 // parseIntegerPowerLevels unmarshals directly to PowerLevelContent, since that will kick up an
 // error if one of the power levels isn't an int64.
 func parseIntegerPowerLevels(contentBytes []byte, c *PowerLevelContent) error {
-	return json.Unmarshal(contentBytes, c)
+	return unmarshalExact(contentBytes, c)
 }
 
 func parsePowerLevels(contentBytes []byte, c *PowerLevelContent) error {
@@ -492,7 +492,7 @@ func parsePowerLevels(contentBytes []byte, c *PowerLevelContent) error {
 		EventDefaultLevel  levelJSONValue            `json:"events_default"`
 		NotificationLevels map[string]levelJSONValue `json:"notifications"`
 	}
-	if err := json.Unmarshal(contentBytes, &content); err != nil {
+	if err := unmarshalExact(contentBytes, &content); err != nil {
 		return errorf("unparseable power_levels event content: %s", err.Error())
 	}
 
@@ -595,7 +595,7 @@ func checkCreateEventV1(event PDU, sender spec.UserID, knownRoomVersion KnownRoo
 		Creator     *string      `json:"creator"`
 		RoomVersion *RoomVersion `json:"room_version"`
 	}{}
-	if err := json.Unmarshal(event.Content(), &c); err != nil {
+	if err := unmarshalExact(event.Content(), &c); err != nil {
 		return errorf("create event has invalid content: %s", err.Error())
 	}
 	if c.Creator == nil {
@@ -622,7 +622,7 @@ func checkCreateEventV3(event PDU, sender spec.UserID, knownRoomVersion KnownRoo
 		RoomVersion        *RoomVersion `json:"room_version"`
 		AdditionalCreators []string     `json:"additional_creators"`
 	}{}
-	if err := json.Unmarshal(event.Content(), &c); err != nil {
+	if err := unmarshalExact(event.Content(), &c); err != nil {
 		return errorf("create event has invalid content: %s", err.Error())
 	}
 	if c.RoomVersion != nil {
@@ -643,7 +643,7 @@ func checkCreateEventV3(event PDU, sender spec.UserID, knownRoomVersion KnownRoo
 	ev := struct {
 		RoomID string `json:"room_id"`
 	}{}
-	if err := json.Unmarshal(event.JSON(), &ev); err != nil {
+	if err := unmarshalExact(event.JSON(), &ev); err != nil {
 		return errorf("create event cannot be valid json: %s", err.Error())
 	}
 	if ev.RoomID != "" {
@@ -656,7 +656,7 @@ func checkCreateEventV3(event PDU, sender spec.UserID, knownRoomVersion KnownRoo
 func CreatorsFromCreateEvent(createEvent PDU) (creators []string) {
 	creators = append(creators, string(createEvent.SenderID()))
 	var content CreateContent
-	err := json.Unmarshal(createEvent.Content(), &content)
+	err := unmarshalExact(createEvent.Content(), &content)
 	if err != nil {
 		// A create event whose content has members of the wrong type (it came from
 		// another server) fails its own auth check; it names no additional creators.
